@@ -67,10 +67,28 @@ def extRun (op : Op) : ExtSt K → List (K × K) → List (K × K × Bool)
 def extFold (op : Op) (st : ExtSt K) (steps : List (K × K)) : ExtSt K :=
   steps.foldl (fun s p => extAdvance op s p.1 p.2) st
 
+/-- trajectory with report states: `isReport = true` is an interpolated report state (observed with the state variable of
+the step in progress, never fed to the auto-update), `false` a completed step -/
+def extRunF (op : Op) : ExtSt K → List (Bool × K × K) → List (K × K × Bool)
+  | _, [] => []
+  | st, (rep, t, v) :: rest =>
+    extObserve op st t v :: extRunF op (if rep then st else extAdvance op st t v) rest
+
+/-- `getValue(s, 1)` of an Extreme whose operand has a derivative: the operand's derivative if the current value is a
+new extreme, else zero -/
+def extDeriv (op : Op) (st : ExtSt K) (v vdot : K) : K := if isNewExtreme op v st.ext then vdot else 0
+
 /-- vector form: a new extreme in *any* element updates *every* element by `extremeOf` -/
 def extObserveVec (op : Op) (old cur : List K) : List K × Bool :=
   let nw := (List.zipWith (isNewExtreme op) cur old).any id
   (if nw then List.zipWith (extremeOf op) cur old else old, nw)
+
+/-- vector Extreme on a trajectory (state variable = list of element extremes) -/
+def extVecRunF (op : Op) : List K → List (Bool × List K) → List (List K)
+  | _, [] => []
+  | old, (rep, cur) :: rest =>
+    let o := extObserveVec op old cur
+    o.1 :: extVecRunF op (if rep then old else o.1) rest
 
 /-! ## Delay buffer (logical contents) -/
 
@@ -165,6 +183,14 @@ def delayRun (delay : K) : Buf K → Buf K → List (K × K) → List (Option K)
     let upd := cache.copyInAndUpdate var (t - delay) t v
     obs :: delayRun delay upd var rest
 
+/-- with report states (observe only) -/
+def delayRunF (delay : K) : Buf K → Buf K → List (Bool × K × K) → List (Option K)
+  | _, _, [] => []
+  | var, cache, (rep, t, v) :: rest =>
+    let obs := var.valueAt (t - delay)
+    if rep then obs :: delayRunF delay var cache rest
+    else obs :: delayRunF delay (cache.copyInAndUpdate var (t - delay) t v) var rest
+
 /-! ## Differentiate (approximation in use) -/
 
 structure DiffSt (K : Type) where
@@ -187,6 +213,29 @@ def diffUpdate (st : DiffSt K) (t f : K) (sameTime : Bool) : DiffSt K :=
 def diffRun : DiffSt K → List (K × K × Bool) → List K
   | _, [] => []
   | st, (t, f, same) :: rest => let st' := diffUpdate st t f same; st'.fdot :: diffRun st' rest
+
+/-- with report states: the estimate at a report state is computed from the state variable of the step in progress and
+discarded -/
+def diffRunF : DiffSt K → List (Bool × K × K) → List K
+  | _, [] => []
+  | st, (rep, t, f) :: rest =>
+    let same := !(decide (t < st.t0)) && !(decide (st.t0 < t))      -- `t == t0`
+    let st' := diffUpdate st t f same
+    st'.fdot :: diffRunF (if rep then st else st') rest
+
+/-! ## Integrate -/
+
+/-- `Integrate`: one continuous state `z` per element; `initializeVirtual` sets `z := ic`; `realizeAcceleration` sets
+`zdot := operand`; `getValue(s,0) = z`, `getValue(s,1) = operand` -/
+def integInit (ic : K) : K := ic
+def integZDot (operandValue : K) : K := operandValue
+/-- what an explicit Euler step of length `t1 - t0` does to `z` (`y := yPrev + h*ydotPrev`, ExplicitEulerIntegrator.cpp) -/
+def integEulerStep (z t0 t1 zdot0 : K) : K := z + (t1 - t0) * zdot0
+
+/-- Euler trajectory of the integral: steps `(t, operand(t))`; returns `z` at every step -/
+def integEulerRun : K → K → K → List (K × K) → List K
+  | _, _, _, [] => []
+  | z, t0, v0, (t, v) :: rest => let z' := integEulerStep z t0 t v0; z' :: integEulerRun z' t v rest
 
 /-! ## arithmetic measures -/
 
